@@ -22,6 +22,8 @@ def flav_record(f, role, h, fl):
         "name": None, "role": role, "ver": f["ver"],
         "certSuite": kex in ("rsa", "dhe_rsa", "ecdhe_rsa", "ecdhe_ecdsa", "dhe_dsa", "srp_sha_rsa") or f["ver"] == 4,
         "ske": kex != "rsa",
+        "srp": kex in ("srp_sha", "srp_sha_rsa"),
+        "pha": f["ver"] == 4 and f["reqCert"] == "cert",
         "reqCert": f["reqCert"] != "no",
         "npn": bool(f["npn"]),
         "ticket": bool(f["ticket"]) or f["resume"] == "ticket",
@@ -49,6 +51,9 @@ def drive(f, role, plan, case):
     eut_sock, peer_sock = (p.csock, p.ssock) if role == "c" else (p.ssock, p.csock)
     pup = Puppet(peer, peer_sock, plan=plan)
     rec = Puppet(eut, eut_sock, plan=None)          # recorder only
+    from ..tracer import RecTracer
+    rtr = RecTracer()
+    rtr.attach(eut, role)
     cgen, sgen = sc.gens()
     egen, pgen = (cgen, sgen) if role == "c" else (sgen, cgen)
     te = Task("c" if role == "c" else "s", egen, eut_sock)
@@ -110,6 +115,16 @@ def drive(f, role, plan, case):
     obs["got"] = got.decode("latin1") if te.out.ok else ""
     # no second handshake: after completion the EUT sends no hello
     obs["rehello"] = any(t in ("CH", "SH", "HRR") for t in rec.sent[sent_at_done:])
+    obs["pup_sent_rec"] = pup.sent_rec
+    # what the EUT received / sent, in its own program order: ("R", n) = n-th record received, ("S", content type)
+    io, nr = [], 0
+    for e in rtr.events:
+        if e["ev"] == "R":
+            nr += 1
+            io.append(["R", nr])
+        elif e["ev"] == "S":
+            io.append(["S", int(e["ct"])])
+    obs["eut_io"] = io
     obs["pup_tokens"] = pup.tokens
     obs["pup_flights"] = pup.flights
     obs["pup_sent"] = pup.sent
@@ -173,6 +188,19 @@ def judge(case, obs):
         if obs["hs_ok"] and obs["post"] not in ("-", "starve", "data", "eof") and \
                 not obs.get("post_peer_caused") and not obs.get("post_local_alert"):
             bad.append(("reject-with-fatal-alert", "EUT failed after completion with %s instead of a fatal alert" % obs["post"]))
+    # the EUT gives up AT the first inadmissible message: once it has received the record that carries it, it
+    # sends nothing but alerts (no further handshake flight, ChangeCipherSpec or data)
+    at = case.get("at", 0)
+    if not spec_open and 0 < at <= len(obs.get("pup_sent_rec", [])):
+        first_rec = obs["pup_sent_rec"][at - 1] + 1
+        seen = False
+        for kind, v in obs.get("eut_io", []):
+            if kind == "R" and v >= first_rec:
+                seen = True
+            elif kind == "S" and seen and v != 21:
+                bad.append(("aborts-at-inadmissible-message",
+                            "EUT went on sending (content type %d) after receiving the inadmissible message #%d" % (v, at)))
+                break
     if obs["rehello"]:
         bad.append(("no-second-handshake", "EUT sent a hello after the handshake completed"))
     return bad
